@@ -4,13 +4,14 @@ prop("C03", pkg="c03", fuzz=[("FuzzProtoRoundTrip", 60)],
           "varint/zigzag32/64/fixed32/64/bytes/rep tags, single-pointer 'inlined' chains to depth 3, top-level scalars, "
           "chains of 1..3 pointers to implementers / corpus structs / structs / scalars both as the top-level value (7 % of types) and as fields, repeated elements and map values; plus a static corpus: RawMessage, a Message "
           "implementer, two gogo-style custom types, a struct implementing proto.Message that also carries the ProtoMessage() marker (MsgPM, encoded by its own methods) and one "
-          "with the custom methods plus the marker (CustomSPM, which the library encodes as an ordinary struct by reflection), both usable in every position (field, pointer, "
+          "with the custom methods plus the marker (CustomSPM, which the library encodes as an ordinary struct by reflection), a slice-kinded custom type whose MarshalTo copies without checking for room (CustomCopy) and a Message "
+          "implementer whose Marshal indexes its buffer assuming len(b) >= Size() (MsgTrust) - the library has to provide the room -, all usable in every position (field, pointer, "
           "pointer chain, repeated element, map value, top level), three recursive structs, a struct with an unexported field, a protoc-style proto2 struct) and then 12 value recipes "
           "per type (boundary-heavy integers and floats incl. -0/NaN payloads/Inf, nil vs empty, repeated fields of 0..40 elements and 8 % beyond 40 (cheap element types up to 2500, thorough 5000) plus a sub-check whose values all carry a repeated field of 1001..2500 (thorough 5000) elements), "
           "each marshalled by value or (25 %) by pointer. One evaluation = one (type, value, by-pointer) case through Marshal, Size, Unmarshal, Marshal again. "
           "Non-trivial = the built value is not the zero value of its type; distinct = FNV-64 of (type descriptor JSON, value recipe JSON, by-pointer). "
           "Thorough tier only: a native Go fuzzing campaign FuzzProtoRoundTrip (60 s, 16 workers, not seed-reproducible - the saved input is the reproducible unit) over "
-          "(bytes <= 4 KiB, selector of 29 static target types from pgen.FuzzTargets, by-pointer flag): whatever value the bytes decode to without error goes through the same "
+          "(bytes <= 4 KiB, selector of 32 static target types from pgen.FuzzTargets, by-pointer flag): whatever value the bytes decode to without error goes through the same "
           "oracle; its executions are added to evaluations. "
           "All nine defect classes this check found (KF-C03-001..009) are repaired in /repo (59a4758, 4183846, 63d287d, ede0efc, f520591, 4eb59c8, 4b53871, 8ad6b3b, d34f12d): "
           "no generator avoidance or comparer tolerance is active, the whole domain is generated and excluded_known is empty; a class listed as 'known' again would be avoided / tolerated and counted there.",
